@@ -60,6 +60,20 @@ def covar_lin(x1, x2, scale=None, bias=None, flag=1, task_covar=None, **kw):
     return res * flag
 
 
+def covar_sel(x1, x2, active_dims=None, keep=None, lengthscale=None, **kw):
+    """kernel whose keyword arguments include an int64 index tensor (`active_dims`) and a bool feature mask (`keep`)"""
+    if active_dims is not None:
+        idx = active_dims.reshape(-1, active_dims.shape[-1])[0]
+        x1, x2 = x1[..., idx], x2[..., idx]
+    if keep is not None:
+        m = keep.reshape(-1, keep.shape[-1])[0].to(x1.dtype)
+        x1 = x1 * m
+    res = x1 @ x2.mT
+    if lengthscale is not None:
+        res = res * lengthscale
+    return res
+
+
 def covar_keops(x1, x2, diag=False, **kw):
     if diag:
         return (x1 * x2).sum(-1)
@@ -77,21 +91,28 @@ def user_wrap_class():
     from linear_operator.operators import LinearOperator
 
     class UserWrapLinearOperator(LinearOperator):
-        def __init__(self, base, extra_op=None, scale=None):
-            super().__init__(base, extra_op=extra_op, scale=scale)
-            self.base, self.extra_op, self.scale = base, extra_op, scale
+        def __init__(self, base, extra_op=None, scale=None, index=None, mask=None):
+            super().__init__(base, extra_op=extra_op, scale=scale, index=index, mask=mask)
+            self.base, self.extra_op, self.scale, self.index, self.mask = base, extra_op, scale, index, mask
 
         def _parts(self):
             return [self.base] + ([self.extra_op] if self.extra_op is not None else [])
 
         def _matmul(self, rhs):
             res = sum(p._matmul(rhs) for p in self._parts())
+            if self.index is not None:   # int64 keyword tensor: row permutation
+                res = res[..., self.index, :]
+            if self.mask is not None:    # bool keyword tensor: row mask
+                res = res * self.mask.to(res.dtype).unsqueeze(-1)
             return res if self.scale is None else res * self.scale.unsqueeze(-1).unsqueeze(-1)
 
         def _size(self):
             return self.base.size()
 
         def _transpose_nonbatch(self):
+            if self.index is not None or self.mask is not None:
+                from linear_operator.operators import DenseLinearOperator
+                return DenseLinearOperator(self.to_dense().mT)
             return UserWrapLinearOperator(self.base._transpose_nonbatch(),
                                           None if self.extra_op is None else self.extra_op._transpose_nonbatch(), self.scale)
 
@@ -177,6 +198,19 @@ def recipes():
     R["UserWrap(Dense,scale)"] = lambda g, b: U(O.DenseLinearOperator(g.T(*b, 3, 3)), scale=g.T(*b))
     R["Sum(UserWrap,Diag)"] = lambda g, b: O.SumLinearOperator(
         U(O.DenseLinearOperator(g.T(*b, 3, 3)), extra_op=O.RootLinearOperator(g.T(*b, 3, 2)), scale=g.T(*b)), O.DiagLinearOperator(g.T(*b, 3)))
+    # integer / boolean tensors held as KEYWORD arguments (must never be cast by type/double/float/half/to)
+    R["Kernel(intkw)"] = lambda g, b: O.KernelLinearOperator(
+        g.T(*b, 3, 3), g.T(*b, 2, 3), covar_func=covar_sel, active_dims=torch.tensor([2, 0]), keep=torch.tensor([True, False]),
+        lengthscale=g.T(*b, 1, 1), num_nonbatch_dimensions={"active_dims": 1, "keep": 1})
+    R["Kernel(boolkw)"] = lambda g, b: O.KernelLinearOperator(
+        g.T(*b, 3, 2), g.T(*b, 3, 2), covar_func=covar_sel, keep=g.mask(2), num_nonbatch_dimensions={"keep": 1})
+    R["UserWrap(Dense,index,mask,scale)"] = lambda g, b: U(O.DenseLinearOperator(g.T(*b, 3, 3)), scale=g.T(*b), index=g.perm(), mask=g.mask(3))
+    R["UserWrap(Toeplitz,op=Diag,index)"] = lambda g, b: U(O.ToeplitzLinearOperator(g.T(*b, 3)), extra_op=O.DiagLinearOperator(g.T(*b, 3)), index=g.perm())
+    R["Sum(Kernel(intkw),Dense)"] = lambda g, b: O.SumLinearOperator(R["Kernel(intkw)"](g, b), O.DenseLinearOperator(g.T(*b, 3, 2)))
+    R["Cat(Kernel(intkw),UserWrap(mask))"] = lambda g, b: O.CatLinearOperator(
+        O.KernelLinearOperator(g.T(*b, 3, 3), g.T(*b, 3, 3), covar_func=covar_sel, active_dims=torch.tensor([1, 2]), lengthscale=g.T(*b, 1, 1),
+                               num_nonbatch_dimensions={"active_dims": 1}),
+        U(O.DenseLinearOperator(g.T(*b, 3, 3)), mask=g.mask(3)), dim=-2)
     R["Matmul(Masked,Dense)"] = lambda g, b: O.MatmulLinearOperator(
         O.MaskedLinearOperator(O.DenseLinearOperator(g.T(*b, 3, 3)), g.mask(3), torch.tensor([True, True, True])), O.DenseLinearOperator(g.T(*b, 3, 3)))
     R["KeOps"] = lambda g, b: O.KeOpsLinearOperator(g.T(*b, 3, 2), g.T(*b, 2, 2), covar_keops)
@@ -390,7 +424,7 @@ def first_diff(a, b, path=""):
 
 # ----------------------------------------------------------------------------------------------- operations
 OPS = ["clone", "detach", "cpu", "rebuild", "evaluate_kernel", "rebuild2", "double", "float", "to(f32)", "to(f64)",
-       "to(dtype=f32)", "to(tensor:f64)", "type(f32)", "type(f64)", "to(cpu,f64)", "to(cpu)"]
+       "to(dtype=f32)", "to(tensor:f64)", "type(f32)", "type(f64)", "to(cpu,f64)", "to(cpu)", "half"]
 
 
 def op_target(opname, src):
@@ -398,6 +432,8 @@ def op_target(opname, src):
         return F64
     if opname in ("float", "to(f32)", "to(dtype=f32)", "type(f32)"):
         return F32
+    if opname == "half":
+        return torch.float16
     return src
 
 
@@ -412,6 +448,8 @@ def model_cmd(opname):
         return "conv type:f64"
     if opname in ("float", "type(f32)"):
         return "conv type:f32"
+    if opname == "half":
+        return "conv type:f16"
     if opname in ("to(f64)", "to(tensor:f64)", "to(cpu,f64)"):
         return "conv to:f64"
     if opname in ("to(f32)", "to(dtype=f32)"):
@@ -436,6 +474,8 @@ def apply_op(o, opname, other=None):
         return o.double()
     if opname == "float":
         return o.float()
+    if opname == "half":
+        return o.half()
     if opname == "to(f32)":
         return o.to(F32)
     if opname == "to(f64)":
@@ -658,6 +698,11 @@ def run_case(chk, enc, R, case, opnames, lines, expect, overridden):
                 chk.violation(f"{cell}/dtype:attr", f"{desc}: result reports dtype {r.dtype}", pl)
             # (d) index tensors
             lo, lr = enc.leaves(other if opname == "rebuild2" else src_op), enc.leaves(r)
+            ek_override = opname == "evaluate_kernel" and "evaluate_kernel" in overridden.get(cls, [])
+            if ek_override:
+                # `linear_op + diag` may merge or re-arrange tensors (AddedDiag(X, D1) + D2 -> AddedDiag(X, D1 + D2)):
+                # no leaf-wise comparison; shape, dtype and values are compared below
+                lr = lo
             if len(lo) == len(lr):
                 for i, (a, c) in enumerate(zip(lo, lr)):
                     if not a.dtype.is_floating_point:
@@ -688,7 +733,8 @@ def run_case(chk, enc, R, case, opnames, lines, expect, overridden):
             if ref_obs is None:
                 ref_obs = observe(other, eff_src, g, solve)
                 g.set_state(gstate)
-            obs_r = observe(r, tgt, g, solve)
+            # half precision: structure / dtype / index-tensor checks only (CPU half arithmetic is not exercised)
+            obs_r = OrderedDict() if tgt == torch.float16 else observe(r, tgt, g, solve)
             for name, (st, d, v) in obs_r.items():
                 st0, d0, v0 = ref_obs.get(name, ("exc", "missing", None))
                 if st == "exc":
